@@ -237,7 +237,7 @@ func (m *Model) DispenseInstantly(consumable string, quantity *traits.Consumable
 		return nil, err
 	}
 	if maskedErr != nil {
-		return nil, err
+		return nil, status.Error(codes.InvalidArgument, maskedErr.Error())
 	}
 	return stock, nil
 }
